@@ -89,6 +89,10 @@ ExpectedReq(rr) == {<<v, CommOfV(rr.duty, v)>> : v \in rr.accts}
 SignData(rr) == [slot |-> rr.duty.slot, src |-> rr.data.src, tgt |-> rr.data.tgt, root |-> rr.data.root]
 Signed(rr) == ReqVals(rr.req) \ rr.zero
 OldPairs(rr) == {p \in attested : p[1] + 1 < Epoch(rr.duty.slot)}
+\* the marks a run made itself, as long as it has not asked the signer for anything: the property
+\* does not forbid giving them back (e.g. to allow a retry after a failed fetch)
+OwnUnsigned(r) == IF \E s \in signReq : s.run = r THEN {}
+                  ELSE {<<Epoch(run[r].duty.slot), v>> : v \in run[r].claimed} \cap attested
 
 -----------------------------------------------------------------------------
 Init ==
@@ -193,11 +197,12 @@ Submit(r, ok) ==
     /\ run' = [run EXCEPT ![r].pc = "ret"]
     /\ UNCHANGED <<attested, signReq, horizon>>
 
-\* housekeepAttestedMap and the return of Attest: only entries older than epoch-1 may go
+\* housekeepAttestedMap and the return of Attest: only entries older than epoch-1 may go (and the
+\* run's own marks if it never reached the signer)
 Housekeep(r, P) ==
     /\ run[r].pc = "ret"
     /\ P \subseteq attested
-    /\ Strict01 => P \subseteq OldPairs(run[r])
+    /\ Strict01 => P \subseteq OldPairs(run[r]) \cup OwnUnsigned(r)
     /\ attested' = attested \ P
     /\ run' = [run EXCEPT ![r] = DoneRun]
     /\ UNCHANGED <<signReq, submitted, horizon>>
@@ -222,6 +227,7 @@ NextWith(Duties, Lean) ==
         \/ \E S \in Choice(Lean, Signed(run[r])) : Build(r, {ExpectedAtt(run[r].duty, v, run[r].data) : v \in S})
         \/ \E ok \in BOOLEAN : Submit(r, ok)
         \/ \E P \in Choice(Lean, OldPairs(run[r])) \cup {{}} : Housekeep(r, P)
+        \/ \E P \in Choice(Lean, OwnUnsigned(r)) : Housekeep(r, P)
 
 -----------------------------------------------------------------------------
 (* C01 *)
@@ -247,11 +253,12 @@ RefusedMeansNoSign ==
     /\ \A r \in RunIds : (run[r].data # NoData /\ ~DataOK(run[r].duty, run[r].data))
                             => ~\E s \in signReq : s.run = r
 
-\* attested only grows, except for entries older than epoch-1 dropped when a run finishes
+\* attested only grows, except for entries older than epoch-1 (or a run's own unused marks)
+\* dropped when a run finishes
 AttestedMonotoneStep ==
     \A p \in attested \ attested' :
         \E r \in RunIds : /\ run[r].pc = "ret" /\ run'[r].pc = "done"
-                          /\ p[1] + 1 < Epoch(run[r].duty.slot)
+                          /\ p[1] + 1 < Epoch(run[r].duty.slot) \/ p \in OwnUnsigned(r)
 AttestedMonotone == [][AttestedMonotoneStep]_vars
 
 (* C04 *)
